@@ -8,7 +8,11 @@
 // waiting for the first to finish); fairness and performance are not reproduced.
 package vsync
 
-import "sync"
+import (
+	"runtime"
+	"sync"
+	"sync/atomic"
+)
 
 // Mutex is a channel-based mutual exclusion lock; the zero value is unlocked.
 type Mutex struct {
@@ -136,4 +140,63 @@ func (o *Once) Do(f func()) {
 		defer func() { o.done = true }()
 		f()
 	}
+}
+
+// ---- cooperative preemption points ----
+//
+// bin/build.sh also inserts `vsync.Preempt("<pkg>.<Func>")` as the first statement of every
+// top-level function and method of taskctl's own packages (in the overlay copies only). The call
+// costs one atomic load unless the simulator has armed a countdown: the goroutine that makes the
+// n-th call after arming is handed to the simulator, which parks it like at any other park point.
+// That gives interleavings at function-call granularity inside taskctl's code (PCT-style), not
+// only at the places where the program blocks by itself.
+
+var preemptArmed int32 // >0: countdown of Preempt calls (of the armed goroutine) until the hook is invoked
+var armedGID int64     // only calls made by this goroutine count
+
+// PreemptHook is set by the simulator for the duration of a run.
+var PreemptHook atomic.Value // func(name string)
+
+// Arm makes the n-th Preempt call that goroutine gid makes from now invoke the hook (n <= 0
+// disarms). Counting one goroutine's own calls keeps the preemption point independent of how the
+// runtime orders other goroutines that happen to be runnable at the same instant.
+func Arm(n int, gid int64) {
+	if n < 0 {
+		n = 0
+	}
+	atomic.StoreInt64(&armedGID, gid)
+	atomic.StoreInt32(&preemptArmed, int32(n))
+}
+
+// Armed reports the remaining countdown.
+func Armed() int { return int(atomic.LoadInt32(&preemptArmed)) }
+
+func Preempt(name string) {
+	if atomic.LoadInt32(&preemptArmed) == 0 {
+		return
+	}
+	if GID() != atomic.LoadInt64(&armedGID) {
+		return
+	}
+	if atomic.AddInt32(&preemptArmed, -1) != 0 {
+		return
+	}
+	if f, _ := PreemptHook.Load().(func(string)); f != nil {
+		f(name)
+	}
+}
+
+// GID returns the id of the calling goroutine (parsed from its stack header).
+func GID() int64 {
+	var buf [64]byte
+	n := runtime.Stack(buf[:], false)
+	var id int64
+	for i := len("goroutine "); i < n; i++ {
+		ch := buf[i]
+		if ch < '0' || ch > '9' {
+			break
+		}
+		id = id*10 + int64(ch-'0')
+	}
+	return id
 }
